@@ -58,10 +58,13 @@ ROWS = [
     ('NONAME', '', 'Food', 'Snacks', ''),                                         # 36: no merchant name
     ('SHORT', 'Short'),                                                           # 37: short row (missing cells are None for the loader)
     ('BLANKCAT', 'Blank', '  ', 'Sub', ''),                                       # 38: blank category
+    ('VENMO.*\U0001F355', 'Pizza Pal', 'Food', 'Pizza', 'pizza'),                   # 39: a character outside the Basic Multilingual Plane in the pattern
+    ('CAF\u00c9|CR\u00c8ME', 'Cafe', 'Food', 'Coffee', ''),                          # 40: non-ASCII letters
+    ('VENMO', 'Venmo', 'Transfer', 'P2P', ''),                                     # 41
 ]
 DESCS = ['NETFLIX.COM', 'COSTCO WHOLESALE', 'UBER EATS ORDER', 'UBER TRIP', 'SHELL OIL', 'SHELLFISH BAR', 'AMAZON MKTP', 'RENT PAYMENT', 'GYM CLUB', 'TAX OFFICE',
          'BDAY CAKE', 'RECENT THING', 'SAY "HI" STORE', 'A.B\\C LTD', 'TAGGED ITEM', 'GREEN TEA', 'Mixed Case', 'BIG BUY', 'WIRE IN', "O'BRIEN", 'DUP', '#HASH TAG',
-         'COMMA', 'BRACKET', 'SPACE', 'UTIL CO', 'AUTH HOLD', 'ZERO FEE', 'SMALL ITEM', 'GYMB CLUB', 'PLACEHOLDER X', 'NONAME X', 'SHORT X', 'BLANKCAT X', 'NOTHING']
+         'COMMA', 'BRACKET', 'SPACE', 'UTIL CO', 'AUTH HOLD', 'ZERO FEE', 'SMALL ITEM', 'GYMB CLUB', 'PLACEHOLDER X', 'NONAME X', 'SHORT X', 'BLANKCAT X', 'VENMO PAYMENT \U0001F355 NIGHT', 'CAF\u00c9 PARIS', 'NOTHING']
 AMOUNTS = [-20.0, 0.0, 0.5, 77.0, 5.0, 30.0, 49.99, 50.0, 199.99, 200.0, 200.01, 1499.99, 1499.995, 1500.0, 1500.004, 1500.02, 12345.67, 12345.68]
 DATES = [date(2025, 1, 15), date(2025, 4, 1), date(2025, 4, 30), date(2025, 5, 1), date(2025, 6, 15), date(2025, 12, 3), TODAY - timedelta(days=3), TODAY - timedelta(days=400)]
 
@@ -206,7 +209,7 @@ def main():
         for i in range(n):
             check([i])
         # rule files with several rows (order and interaction: first match, duplicates, tag accumulation)
-        groups = [[1, 2], [2, 1], [3, 4], [4, 3], [6, 7, 8], [8, 7, 6], [22, 23], [23, 22], [16, 0], [0, 16, 17], [10, 9, 0], [19, 20, 21], [28, 29, 30], [30, 29, 28], [34, 0], [35, 0], [0, 35, 2], [36, 0], [37, 0], [0, 37], [38, 0], [34, 35, 36, 37, 0],
+        groups = [[1, 2], [2, 1], [3, 4], [4, 3], [6, 7, 8], [8, 7, 6], [22, 23], [23, 22], [16, 0], [0, 16, 17], [10, 9, 0], [19, 20, 21], [28, 29, 30], [30, 29, 28], [34, 0], [35, 0], [0, 35, 2], [36, 0], [37, 0], [0, 37], [38, 0], [34, 35, 36, 37, 0], [39, 41], [41, 39], [40, 0],
                   [0, 1, 2, 3, 4, 6, 7, 8, 9, 10, 11, 12, 17, 19, 20, 21, 22, 23, 24]]
         for g in groups:
             check(g)
